@@ -15,4 +15,33 @@ PROPS = {
         "thorough": {"cases": 20000, "shards": 16, "shrinktime": "120s", "timeout_s": 3000},
         "assumptions": RUN_ASSUME,
     },
+    "C01": {
+        "test": "TestC01", "binary": "plain", "level": "exploration",
+        "rule": "rapid-generated programs (live profile: 1-8 steps or wide fan-in of 2-40 producers into one output, outcomes incl. "
+                "crash / deploy failure / never-ending steps, foreach, tags) run under a 10 s watchdog; oracle = returns exactly one "
+                "declared output or an error, no hang (two goroutine dumps 1 s apart with identical blocked engine frames), promptness "
+                "when the reference says nothing is producible. non-trivial = >=2 steps and (a non-success outcome or fan-in >= 21)",
+        "quick": {"cases": 600, "shards": 12, "shrinktime": "40s"},
+        "thorough": {"cases": 8000, "shards": 16, "shrinktime": "180s", "timeout_s": 3000},
+        "assumptions": RUN_ASSUME + ["a watchdog expiry without blocked-goroutine evidence is counted as inconclusive, not as a violation"],
+    },
+    "C02": {
+        "test": "TestC02", "binary": "sched", "level": "exploration",
+        "rule": "rapid-generated deterministic programs with dataflow expressions in input / wait_for / deploy / enabled / foreach items; "
+                "oracle over the plugin event log up to the run's shutdown: every logged plugin input and deploy tag equals the reference "
+                "evaluation of the step's expressions over what producers logged as emitted, and every required producer logged exec-end "
+                "before the consumer's exec-start. non-trivial = >=1 executed consumer with a step-output dependency",
+        "quick": {"cases": 1200, "shards": 12, "shrinktime": "30s"},
+        "thorough": {"cases": 20000, "shards": 16, "shrinktime": "120s", "timeout_s": 3000},
+        "assumptions": RUN_ASSUME + ["events after the run began shutting down (schedule point at the entry of terminateAllSteps) are not judged"],
+    },
+    "C04": {
+        "test": "TestC04", "binary": "sched", "level": "exploration",
+        "rule": "rapid-generated deterministic programs with failing / crashing / disabled / deploy-failing steps at every position; "
+                "oracle: the set of plugin executions logged before shutdown is a subset of the reference's may-run set. "
+                "non-trivial = >=1 step that must not run",
+        "quick": {"cases": 1200, "shards": 12, "shrinktime": "30s"},
+        "thorough": {"cases": 20000, "shards": 16, "shrinktime": "120s", "timeout_s": 3000},
+        "assumptions": RUN_ASSUME + ["events after the run began shutting down are not judged"],
+    },
 }
